@@ -13,7 +13,7 @@
     [assigned_before], [never_assigned_before]) are defined in Spec.v from the wording of
     the property, without reference to the algorithm. *)
 From Coq Require Import List Bool Arith.
-From V.C09 Require Import Analysis Spec ProofsLive ProofsAssign ProofsTop ProofsPaths.
+From V.C09 Require Import Analysis Spec ProofsLive ProofsAssign ProofsTop ProofsPaths ProofsWalks.
 Import ListNotations.
 
 (** ** Termination *)
@@ -93,6 +93,23 @@ Theorem live_char_initial_paths : forall incl g I, wf_cfg g = true ->
 Proof. intros incl g I W. exact (live_initial_paths incl g W I). Qed.
 Print Assumptions live_char_initial_paths.
 
+(* pigeonhole: a walk of at least |blocks| edges that never reassigns x revisits a block, so
+   such walks exist in every length (an infinite path) *)
+Theorem idle_walk_pumping : forall incl g x b p, idle_walk incl g x b p -> nblocks g <= length p ->
+  forall k, exists p', length p' = k /\ idle_walk incl g x b p'.
+Proof. exact idle_walk_pump. Qed.
+Print Assumptions idle_walk_pumping.
+
+(* hence, for a variable of the initial set: live before b  <->  read on some path from b
+   before being reassigned, OR some walk of exactly |blocks| edges from b never reassigns it *)
+Theorem live_char_initial_nwalk : forall incl g I, wf_cfg g = true ->
+  forall s', sched_run (live_step Repaired incl g) fst (live_init g I) s' ->
+  forall b x, b < nblocks g -> In x I ->
+    (In x (getv (snd s') b) <->
+     live_on_path incl g x b \/ exists p, length p = nblocks g /\ idle_walk incl g x b p).
+Proof. exact live_initial_nwalk. Qed.
+Print Assumptions live_char_initial_nwalk.
+
 (** ** Definitely / maybe assigned = all-paths / some-path solution, for every pop order *)
 
 (* definitely assigned before b  <->  x is a known variable and NO path from a source (a block
@@ -113,6 +130,17 @@ Theorem maybe_char : forall g D0 M0, wf_cfg g = true ->
     (In x M0 -> (~ In x (getv (befM s') b) <-> never_assigned_before g D0 x b)).
 Proof. intros g D0 M0 W s' H b x Hb. apply (ass_terminal_char g D0 M0 W s' H b x Hb). Qed.
 Print Assumptions maybe_char.
+
+(* positive form of the greatest solution: a variable of maybe_ass_before_entry is maybe
+   assigned before b  <->  some path into b assigns it, OR a backward walk of |blocks| edges
+   from b exists (b lies on or behind a cycle: an infinite backward path) *)
+Theorem maybe_char_initial_nwalk : forall g D0 M0, wf_cfg g = true ->
+  forall s', sched_run (ass_step Repaired g D0) fq (ass_init g D0 M0) s' ->
+  forall b x, b < nblocks g -> In x M0 ->
+    (In x (getv (befM s') b) <->
+     assigned_before g D0 x b \/ exists q, length q = nblocks g /\ back_walk g b q).
+Proof. exact maybe_initial_nwalk. Qed.
+Print Assumptions maybe_char_initial_nwalk.
 
 (** ** Order independence *)
 
